@@ -170,6 +170,9 @@ class ProcRef:
             if any(pid == self.part.id for (_, pid) in recs):
                 self.part = None
         if 'cycle' in self.mon.on:
+            if self.part is None and P._part is not None:
+                self.bad('C06.ended-part-still-held', f'{P.name} still holds {P._part.name} in process at {now} although its '
+                         f'processing ended (finished or lost by a failure)')
             if self.up and self.part is not None and self.elapsed > self.expected:
                 self.bad('C06.late', f'{P.name} still processes {self.part.name} at {now} after {self.elapsed} of '
                          f'operational time, cycle time in effect was {self.expected}')
@@ -221,6 +224,7 @@ class Monitor:
         self.refs = {}
         self.blocked_seen = {}      # part id -> device name where it sat ready-but-blocked at a quiescent instant
         self.unblock_causes = set()
+        self.sink_next = {}
         self.hstate = {}            # plain handlers: name -> (part, accept time, expected)
         self.buf = {}               # buffer name -> {'fifo': [(part, arrival)], 'released': n, 'full': bool, 'refused': n}
         self.bat = {}               # batcher name -> {'in': [ids], 'out': [ids]}
@@ -278,9 +282,14 @@ class Monitor:
             self.refs[name].rc(dev, part)
         elif 'cycle' in self.on and single_slot(dev) and not isinstance(dev, Sink):
             exp = max(0, dev.cycle_time + self.m.pending_offset.pop(name, 0))
-            if name in self.hstate and self.hstate[name][0] is dev._part and False:
-                pass
             self.hstate[name] = (part, now, exp)
+        elif isinstance(dev, Sink):
+            # a sink accepts the next part no sooner than its cycle time (one-shot offsets included) after this one
+            nxt = self.sink_next.get(name)
+            if 'cycle' in self.on and nxt is not None and now < nxt[0]:
+                self.bad('C06.sink', f'{name} accepted {part.name} at {now}; it accepted the previous part at {nxt[1]} and its '
+                         f'cycle time then was {nxt[0] - nxt[1]}')
+            self.sink_next[name] = (now + max(0, dev.cycle_time + self.m.pending_offset.pop(name, 0)), now)
         for lf in leaves(part):
             if lf.id in self.blocked_seen:
                 self.c['handovers_after_block'] += 1
@@ -794,12 +803,6 @@ class Monitor:
                     self.bad('C06.source-late', f'{s} has no part ready at {now} although its cycle ({c}) started at {last}')
                 if d._output is not None and now < last + c:
                     self.bad('C06.source-early', f'{s} has a part ready at {now} although its cycle ({c}) started at {last}')
-            for d in self.devs:
-                if isinstance(d, Sink):
-                    recs = self.recv_cb.get(d.name, [])
-                    if len(recs) >= 2 and recs[-1][0] - recs[-2][0] < d.cycle_time:
-                        self.bad('C06.sink', f'{d.name} accepted parts at {recs[-2][0]} and {recs[-1][0]}, cycle time '
-                                 f'{d.cycle_time}')
 
     # -------------------------------------------------------------------------------------- batcher
     def batch_check(self):
@@ -977,8 +980,10 @@ class Monitor:
             old_home = os.environ.get('HOME')
             os.environ['HOME'] = home
             try:
-                for d in self.spec['T']:
+                for i, d in enumerate(self.spec['T']):
                     self.sys.simulate(d, trace=True, print_summary=False)
+                    for f in (self.m.between.get(i, []) if i < len(self.spec['T']) - 1 else []):
+                        f()
                 self.trace_check(os.path.join(home, 'Downloads', f'{self.env.name}_trace.json'))
             finally:
                 if old_home is None:
@@ -988,8 +993,10 @@ class Monitor:
                 import shutil
                 shutil.rmtree(home, ignore_errors=True)
         else:
-            for d in self.spec['T']:
+            for i, d in enumerate(self.spec['T']):
                 self.sys.simulate(d, print_summary=False)
+                for f in (self.m.between.get(i, []) if i < len(self.spec['T']) - 1 else []):
+                    f()
         self.quiescent()
         if 'route' in self.on:
             self.route_check(True)
